@@ -100,7 +100,7 @@ def _accepts_all_reals(names: List[str]) -> bool:
     return ints and floats and np_int and np_float
 
 
-@rule("C18", "R1", "DISPATCH", "type dispatch on a user hyper-parameter accepts every real scalar", floor=1)
+@rule("C18", "R1", "DISPATCH", "type dispatch on a user hyper-parameter accepts every real scalar", floor=1, evidence=True)
 def r1(ctx):
     ana = ctx.ana
     taint = tainted_params(ana)
@@ -229,7 +229,7 @@ def _is_int_valued(ana, fi, e) -> bool:
     return False
 
 
-@rule("C18", "R4", "DISPATCH", "scalar arithmetic on a raw hyper-parameter is done in Python/float64, never in the caller's NumPy scalar type", floor=1)
+@rule("C18", "R4", "DISPATCH", "scalar arithmetic on a raw hyper-parameter is done in Python/float64, never in the caller's NumPy scalar type", floor=1, evidence=True)
 def r4(ctx):
     """A NumPy scalar keeps its dtype under scalar arithmetic: -np.uint8(1) wraps to 255, np.int8(50)*3 wraps,
     np.float16 rounds.  Arithmetic with a float64 array operand is promoted and is fine; scalar-only arithmetic must
@@ -265,7 +265,7 @@ def r4(ctx):
         ctx.ok("package", "no scalar-only arithmetic on a raw hyper-parameter", role="none")
 
 
-@rule("C18", "R5", "OWN", "a hyper-parameter object handed in by the caller is never edited in place (array forms must not diverge from scalar forms)", floor=2)
+@rule("C18", "R5", "OWN", "a hyper-parameter object handed in by the caller is never edited in place (array forms must not diverge from scalar forms)", floor=2, evidence=True)
 def r5(ctx):
     from .own import describe, ext_writes, ownership
     ana = ctx.ana
